@@ -157,6 +157,29 @@ class Interp:
         k = op["op"]
         em = self.em
         V = self.vars
+        if k == "bulk":
+            # many elements at once (growth of the backing storage, rehashing)
+            a = V.get(op.get("a"))
+            n_ = op["n"]
+            if a is None:
+                return False
+            an = op["a"]
+            if a.t == "li":
+                em.code("from 0 to %d, bi {\n\t%s.push(bi * 3)\n}" % (n_, an))
+                a.data.extend(i * 3 for i in range(n_))
+                em.code("print %s.len()" % an)
+                em.out(str(len(a.data)))
+                return True
+            if a.t == "mis":
+                em.code("from 0 to %d, bi {\n\t%s[bi + 100] = \"b\" + bi\n}" % (n_, an))
+                for i in range(n_):
+                    a.data[i + 100] = "b%d" % i
+                em.code("print %s.len()" % an)
+                em.out(str(len(a.data)))
+                em.code("print %s[%d]" % (an, 100 + n_ - 1))
+                em.out("b%d" % (n_ - 1))
+                return True
+            return False
         if k == "src_bump":
             # the source the view-returning callbacks read from changes afterwards
             em.code("gsrc[0] += 1\ngflags[0] = !gflags[0]")
@@ -663,6 +686,10 @@ def gen_op(rng, it):
         return {"op": "new", "t": t, "init": init}
     if rng.chance(1, 12):
         return {"op": "src_bump"}
+    if rng.chance(1, 15):
+        cands = [x for x in names if it.vars[x].t in ("li", "mis")]
+        if cands:
+            return {"op": "bulk", "a": rng.choice(cands), "n": rng.choice([7, 8, 9, 15, 16, 17, 33, 64, 130])}
     a = rng.choice(names)
     o = it.vars[a]
     if o.t in LIST_T:
